@@ -94,7 +94,8 @@ pub fn compare(x: &XDump, d: &Dump, check_lines: bool) -> Vec<String> {
     all.dedup();
     for (i, a) in all.iter().enumerate() {
         for b in &all[i + 1..] {
-            if crate::paths::is_tame(a) && crate::paths::is_tame(b) && crate::paths::resolve(a) == crate::paths::resolve(b) {
+            let comparable = (crate::paths::is_tame(a) && crate::paths::is_tame(b)) || (crate::paths::is_tame_dir(a) && crate::paths::is_tame_dir(b));
+            if comparable && crate::paths::node_key(a) == crate::paths::node_key(b) {
                 diff.push(format!("{:?} and {:?} denote the same location but are two graph nodes", a, b));
             }
         }
@@ -240,9 +241,17 @@ impl SynCheck {
             let (sf, ss) = builds[t.below(builds.len())];
             let Stmt::Build(src) = m.files[sf].stmts[ss].clone() else { continue };
             let mut dup = src.outs[t.below(src.outs.len())].clone();
-            if t.chance(40) && dup.val.iter().all(|p| matches!(p, Piece::Lit(_))) {
+            let literal = dup.val.iter().all(|p| matches!(p, Piece::Lit(_)));
+            if t.chance(40) && literal {
                 dup.respell = Some(t.below(3) as u8);
                 classes.push("dup-spelled-differently".into());
+            }
+            let mut dirform = None;
+            if t.chance(12) && literal && dup.respell.is_none() {
+                // the duplicated output in directory form: `name/`, `name/.`, `name/zz/..` are one file
+                let a = t.below(3) as u8;
+                dirform = Some((a, (a + 1 + t.below(2) as u8) % 3));
+                classes.push("dup-directory-form".into());
             }
             let across = builds.len() > 1 && t.chance(50);
             let (tf, ts) = if across {
@@ -255,6 +264,15 @@ impl SynCheck {
                 (sf, ss)
             };
             let mult = 1 + t.weighted(&[5, 3, 2]);
+            if let Some((a, b)) = dirform {
+                // both occurrences are written in directory form, with different spellings
+                let oi = if let Stmt::Build(s) = &m.files[sf].stmts[ss] { s.outs.iter().position(|o| o.val == dup.val) } else { None };
+                if let (Some(oi), Stmt::Build(s)) = (oi, &mut m.files[sf].stmts[ss]) {
+                    s.outs[oi].dir_suffix = Some(a);
+                    s.outs[oi].respell = None;
+                }
+                dup.dir_suffix = Some(b);
+            }
             if let Stmt::Build(dst) = &mut m.files[tf].stmts[ts] {
                 for _ in 0..mult {
                     let pos = t.below(dst.outs.len() + 1);
@@ -347,7 +365,7 @@ impl SynCheck {
                             }
                         }
                     }
-                    if s.outs.iter().any(|o| o.starts_with('/') || o.starts_with("..")) {
+                    if s.outs.iter().any(|o| o.starts_with('/') || o.starts_with("..") || o.ends_with('/')) {
                         st.borrow_mut().skip = true;
                     }
                 }
@@ -408,7 +426,7 @@ impl SynCheck {
         }
         classes.sort();
         classes.dedup();
-        out.nontrivial = classes.iter().any(|c| c == "multiplicity>=3" || c == "dup-spelled-differently" || c == "across-statements");
+        out.nontrivial = classes.iter().any(|c| c == "multiplicity>=3" || c == "dup-spelled-differently" || c == "across-statements" || c == "dup-directory-form");
         out.fp = fnv_str(&format!("{:?}", rendered.files));
         out.classes = classes;
         out.desc = desc;
